@@ -22,6 +22,9 @@ WStep(wr, c) ==
       [] c.op = "push_int" -> [wr |-> [wr EXCEPT !.bits = wr.bits \o Field(c.v, c.w)], res |-> "ok"]
       [] c.op = "push"     -> [wr |-> [wr EXCEPT !.bits = wr.bits \o Field(c.v, wr.width)], res |-> "ok"]
       [] c.op = "extend"   -> [wr |-> [wr EXCEPT !.bits = wr.bits \o FoldLeft(LAMBDA acc, v : acc \o Field(v, wr.width), << >>, c.vs)], res |-> "ok"]
+      \* a bulk of n pushes whose values are not logged (the trace then only tracks the length; the file is still
+      \* compared byte for byte with the in-memory vector by the harness)
+      [] c.op = "push_many" -> [wr |-> [wr EXCEPT !.bits = wr.bits \o [k \in 1..(c.n * (IF wr.kind = "int" THEN wr.width ELSE c.w)) |-> FALSE]], res |-> "ok"]
       [] c.op = "close"    -> [wr |-> [wr EXCEPT !.open = FALSE], res |-> "ok"]      \* idempotent: closing a closed writer is Ok and changes nothing
 
 \* pushes are only defined on an open writer
